@@ -912,6 +912,48 @@ fn record_pairs<S: Shape + Intersect + serde::Serialize>(
     }
 }
 
+/// Two copies lined up along a common edge direction with a real gap, the second turned by a
+/// multiple of the polygon's symmetry angle plus a tiny angle (edges parallel, or parallel up to
+/// 1e-12 ... 1e-7 rad): the configurations in which a tolerance on parallelism or on the end
+/// points of the edges matters.
+fn record_aligned(name: &str, shape: &LineShape, rng: &mut rand_pcg::Pcg64Mcg, count: usize, out: &mut Vec<String>) {
+    use rand::seq::SliceRandom;
+    use rand::Rng;
+    let n = shape.items.len();
+    for _ in 0..count {
+        let th1 = if rng.gen::<bool>() { 0. } else { rng.gen::<f64>() * 2. * PI };
+        let t1 = rigid(th1, 0, 0., 0.);
+        let a = shape.transform(&Transform2::from(t1));
+        let i = rng.gen_range(0, n);
+        let e = &a.items[i];
+        let (ex, ey) = (e.end.x - e.start.x, e.end.y - e.start.y);
+        let len = (ex * ex + ey * ey).sqrt();
+        let (ux, uy) = (ex / len, ey / len);
+        let delta = *[0., 2e-11, -2e-11, 1e-10, -1e-10, 1e-9, 3e-8, -1e-7, 1e-12, 5e-13].choose(rng).unwrap();
+        let turn = (rng.gen_range(0, n) as f64) * 2. * PI / n as f64;
+        let gap = *[0.25, 0.05, 0.6, 1.5].choose(rng).unwrap();
+        // far enough along the edge direction that the projections onto it are `gap` apart
+        let proj: Vec<f64> = a.items.iter().map(|l| l.start.x * ux + l.start.y * uy).collect();
+        let width = proj.iter().cloned().fold(f64::MIN, f64::max) - proj.iter().cloned().fold(f64::MAX, f64::min);
+        let d = width + gap;
+        let t2 = rigid(th1 + turn + delta, 0, d * ux, d * uy);
+        let mut answers = vec![];
+        let mut p = Value::Null;
+        let mut q = Value::Null;
+        for (k, mo) in motions().iter().enumerate() {
+            let x = shape.transform(&Transform2::from(mo * t1));
+            let y = shape.transform(&Transform2::from(mo * t2));
+            if k == 0 {
+                p = rounded_items(&x);
+                q = rounded_items(&y);
+            }
+            answers.push(x.intersects(&y));
+            answers.push(y.intersects(&x));
+        }
+        out.push(json!({"shape": format!("{} aligned gap {} turn {:e}", name, gap, delta), "kind": "poly", "p": p, "q": q, "answers": answers, "d": d}).to_string());
+    }
+}
+
 pub fn pairs_obs(out: &str, thorough: bool, seed: u64) {
     std::panic::set_hook(Box::new(|_| {}));
     let mut rng = crate::suites::seeded(seed, 1212);
@@ -921,6 +963,11 @@ pub fn pairs_obs(out: &str, thorough: bool, seed: u64) {
         let sh = LineShape::polygon(*n).unwrap();
         record_pairs(&format!("polygon{}", n), "poly", &sh, &mut rng, per, &mut lines);
     }
+    for n in [3usize, 4, 5, 6, 8].iter() {
+        let sh = LineShape::polygon(*n).unwrap();
+        record_aligned(&format!("polygon{}", n), &sh, &mut rng, per * 2, &mut lines);
+    }
+    record_aligned("kite", &LineShape::from_radial("kite", vec![1., 0.6, 1., 0.6]).unwrap(), &mut rng, per * 2, &mut lines);
     for rad in [vec![1., 0.6, 1., 0.6], vec![0.8, 1., 0.8, 1.], vec![1., 0.9, 0.8, 0.9, 1., 0.9], vec![1., 0.5, 0.8, 0.3]].iter() {
         let sh = LineShape::from_radial("radial", rad.clone()).unwrap();
         record_pairs(&format!("radial{:?}", rad), "poly", &sh, &mut rng, per, &mut lines);
